@@ -166,7 +166,7 @@ def mktmp():
 # properties decided by several harnesses (parts); each part writes evidence/<ID>.part-<name>.json
 PARTS = {
     "C02": ["c02", "c02b"],
-    "C03": ["c03", "c03b"],
+    "C03": ["c03", "c03b", "c03c"],
     "C04": ["c04", "c04b"],
     "C10": ["c10", "c10b", "c10c"],
     "C11": ["c11", "c11b"],
